@@ -34,6 +34,17 @@ Proof.
   - intros o1 o2 x c1 c2 _ H1 H2. inversion H1; inversion H2; subst. reflexivity.
 Qed.
 
+Lemma plist_part_e_ok {O X} (to : X -> pv) (of : pv -> option X) (w : X -> Prop) (e : X -> X -> Prop) :
+  (forall x, e x x) -> (forall x y, e x y -> e y x) -> (forall x y z, e x y -> e y z -> e x z) ->
+  (forall x, w x -> pv_good 0 (to x) = true /\ exists x', of (to x) = Some x' /\ e x x') ->
+  part_ok (@plist_part_e pf ff fi O X to of w e).
+Proof.
+  intros R Sy T H. constructor; simpl; auto.
+  - intros o x Hw. destruct (H x Hw) as [G [x' [Hx He]]]. eexists. exists x'. split; [reflexivity|].
+    rewrite (tree_value _ G). simpl. auto.
+  - intros o1 o2 x c1 c2 _ H1 H2. inversion H1; inversion H2; subst. reflexivity.
+Qed.
+
 (** ** metainfo *)
 Lemma int_ok_small : forall n, n < 2 ^ 32 -> int_ok (Z.of_N n) = true.
 Proof.
@@ -63,6 +74,21 @@ Qed.
 Lemma meta_part_ok : forall O, part_ok (P_meta_real pf ff fi O).
 Proof. intros O. apply plist_part_ok. exact meta_rt. Qed.
 
+(** norad's metainfo with the minor version of a decoded one is writable *)
+Lemma pv_meta_norad : forall v m, pv_meta v = Some m ->
+  wf_meta {| m_creator := Some NORAD_CREATOR; m_version := 3; m_minor := m_minor m |}.
+Proof.
+  intros v m Hd. destruct v; try discriminate. unfold pv_meta in Hd.
+  destruct (match alookup k_creator d with None => Some None | Some (PStr c) => Some (Some c) | Some _ => None end); [|discriminate].
+  destruct (alookup k_fv d) as [[| z | | | | | |]|]; try discriminate.
+  destruct ((z =? 1) || (z =? 2) || (z =? 3))%Z; [|discriminate].
+  destruct (alookup k_fvm d) as [[| z2 | | | | | |]|]; try discriminate.
+  - destruct ((0 <=? z2) && (z2 <? 2 ^ 32))%Z eqn:E; [|discriminate]. inversion Hd; subst m.
+    split; [simpl; auto|]. apply andb_true_iff in E. destruct E as [E1 E2]. apply Z.leb_le in E1. apply Z.ltb_lt in E2.
+    change (2 ^ 32)%Z with 4294967296%Z in E2. change (2 ^ 32) with 4294967296. cbn [m_minor]. lia.
+  - inversion Hd; subst m. split; [simpl; auto|reflexivity].
+Qed.
+
 (** ** layercontents *)
 Lemma lc_rt : forall l, wf_lc l -> pv_good 0 (lc_pv l) = true /\ pv_lc (lc_pv l) = Some l.
 Proof.
@@ -83,7 +109,7 @@ Proof.
 Qed.
 
 (** ** contents: BTreeMap insertion keeps strictly ascending keys and rebuilds an ascending list *)
-Lemma bt_insert_keys : forall k v l k', In k' (map fst (bt_insert k v l)) -> k' = k \/ In k' (map fst l).
+Lemma bt_insert_keys {A} : forall k (v : A) l k', In k' (map fst (bt_insert k v l)) -> k' = k \/ In k' (map fst l).
 Proof.
   induction l as [|[a x] l IH]; simpl; intros k' H.
   - destruct H as [<-|[]]. auto.
@@ -93,7 +119,7 @@ Proof.
     + destruct H as [<-|H]; auto.
 Qed.
 
-Lemma bt_insert_ssorted : forall k v l, ssorted l -> ssorted (bt_insert k v l).
+Lemma bt_insert_ssorted {A} : forall k (v : A) l, ssorted l -> ssorted (bt_insert k v l).
 Proof.
   induction l as [|[a x] l IH]; simpl; intros H; [split; [intros ? []|exact I]|].
   destruct H as [H1 H2]. destruct (str_ltb k a) eqn:E1.
@@ -103,7 +129,7 @@ Proof.
     + pose proof (str_ltb_total _ _ E1 E2) as ->. split; assumption.
 Qed.
 
-Lemma bt_insert_last : forall k v l,
+Lemma bt_insert_last {A} : forall k (v : A) l,
   (forall k', In k' (map fst l) -> str_ltb k' k = true) -> bt_insert k v l = l ++ [(k, v)].
 Proof.
   induction l as [|[a x] l IH]; simpl; intros H; [reflexivity|].
@@ -112,7 +138,7 @@ Proof.
   rewrite Ha. rewrite IH; [reflexivity|]. intros; apply H; auto.
 Qed.
 
-Lemma fold_bt_ssorted : forall l acc,
+Lemma fold_bt_ssorted {A} : forall (l acc : list (str * A)),
   ssorted l -> (forall a b, In a (map fst acc) -> In b (map fst l) -> str_ltb a b = true) ->
   fold_left (fun acc e => bt_insert (fst e) (snd e) acc) l acc = acc ++ l.
 Proof.
@@ -124,11 +150,11 @@ Proof.
   - apply H1. exact Hb.
 Qed.
 
-Lemma fold_bt_sorted_any : forall l acc, ssorted acc ->
+Lemma fold_bt_sorted_any {A} : forall (l acc : list (str * A)), ssorted acc ->
   ssorted (fold_left (fun acc e => bt_insert (fst e) (snd e) acc) l acc).
 Proof. induction l as [|e l IH]; simpl; intros acc H; [exact H|]. apply IH. apply bt_insert_ssorted. exact H. Qed.
 
-Lemma ssorted_nodup : forall l, ssorted l -> NoDup (map fst l).
+Lemma ssorted_nodup {A} : forall (l : list (str * A)), ssorted l -> NoDup (map fst l).
 Proof.
   induction l as [|[k v] l IH]; simpl; intros H; [constructor|]. destruct H as [H1 H2].
   constructor; [|apply IH; exact H2]. intros HI. specialize (H1 k HI). rewrite str_ltb_irrefl in H1. discriminate.
